@@ -169,6 +169,11 @@ class CommitHook:
         C.__exit__ = self._exit  # type: ignore[method-assign]
 
 
+def _cls(status: str) -> str:
+    """statuses that are available for run are one class for the purpose of naming a stranded state (a message popped and not claimed)"""
+    return "available" if status in ("registered", "rerouted", "retry") else status
+
+
 def queued_copies(app, target: str) -> int:
     b = app.broker
     got = []
@@ -394,8 +399,8 @@ def run(ctx: Ctx) -> None:
     hook = CommitHook().install()
     commit_points = 0
 
-    def one_point(kind: str, sc: Scenario, k: int, commit_k: int = -1) -> dict:
-        app = make_app(kind, ctx.tmp, app_id=f"c03{kind}{sc.name}{k}c{commit_k if commit_k >= 0 else ''}", max_pending_seconds=5.0,
+    def one_point(kind: str, sc: Scenario, k: int, commit_k: int = -1, k2: int = -1) -> dict:
+        app = make_app(kind, ctx.tmp, app_id=f"c03{kind}{sc.name}{k}c{commit_k if commit_k >= 0 else ''}s{k2 if k2 >= 0 else ''}", max_pending_seconds=5.0,
                        runner_considered_dead_after_minutes=0.5, runner_cls="ThreadRunner")
         T.C03_DONE.clear()
         st = sc.setup(app)
@@ -414,11 +419,40 @@ def run(ctx: Ctx) -> None:
         r = {"crashed": crashed, "rel": inj.rel_done, "effects": list(inj.effects), "commits": inj.commits,
              "pre_status": app.orchestrator.get_invocation_status(st["target"]).value}
         r["queued"] = queued_copies(app, st["target"])
-        r["final"], r["done"] = survivor_drains(app, clock, st["target"], (lambda: sc.after(app, st)) if sc.after else None)
+        if k2 >= 0 and crashed:
+            # SECOND crash: the process that comes to the rescue (runner rX: both recovery tasks, one poll, the bodies it claimed)
+            # dies itself before its k2-th backend effect; a third runner (rB) is what is left
+            from pynenc import context, core_tasks
+
+            cX = rctx("rX")
+            clock.advance(3_600_000_000)
+            app.orchestrator.register_runner_heartbeats(["rX"])
+            if sc.after:
+                sc.after(app, st)
+            inj2 = Injector(app)
+
+            def rescuer() -> None:
+                context.set_current_app(app)
+                context.set_runner_context(app.app_id, cX)
+                core_tasks.recover_pending_invocations()
+                core_tasks.recover_running_invocations()
+                for inv in list(app.orchestrator.get_invocations_to_run(5, cX)):
+                    inv.run(cX)
+
+            r["crashed2"] = inj2.run_actor(rescuer, k2)
+            r["effects2"] = list(inj2.effects)
+            r["pre_status2"] = app.orchestrator.get_invocation_status(st["target"]).value
+            r["queued2"] = queued_copies(app, st["target"])
+            r["final"], r["done"] = survivor_drains(app, clock, st["target"], None)
+        else:
+            r["final"], r["done"] = survivor_drains(app, clock, st["target"], (lambda: sc.after(app, st)) if sc.after else None)
         flush(app)
         r["recovered"] = r["final"] in ("success", "failed", "concurrency_controlled_final") and r["done"] >= 1
         return r
 
+    stranded_sig: dict[tuple[str, str, int], str] = {}  # (last effect, status, queued copies) of a single crash that strands -> its signature
+    double_points = 0
+    todo_double: list = []
     try:
         for kind in ("mem", "sqlite"):
             for sc in scenarios():
@@ -454,6 +488,8 @@ def run(ctx: Ctx) -> None:
                     last = effects[-1] if effects else "start"
                     if crashed:
                         label_of_state.setdefault((pre_status, r["queued"]), f"after:{last}")
+                    if not recovered and crashed:
+                        stranded_sig.setdefault((last, _cls(pre_status), r["queued"]), f"crash:{sc.name}:after:{last}")
                     if not recovered:
                         sig = f"crash:{sc.name}:after:{last}" if crashed else f"no-crash:{sc.name}"
                         ctx.report(sig, f"[{kind}] {sc.name}: the acting process dies {point} with the invocation {pre_status}; after recovery and a surviving runner it is {final} "
@@ -485,7 +521,39 @@ def run(ctx: Ctx) -> None:
                                        {"backend": "sqlite", "role": sc.name, "crash_after_commit": j, "effects_done": r["effects"], "status_at_crash": r["pre_status"],
                                         "queued": r["queued"], "final_status": r["final"]})
                         j += 1
+                todo_double.append((kind, sc, k))
                 ctx.sample({"backend": kind, "role": sc.name, "crash_points": k + 1, "model_table": table})
+        for kind, sc, k in todo_double:
+            # -- thorough tier: TWO crashes.  After every first crash that leaves a recoverable state, the rescuer dies before each of
+            #    its own effects; a third runner remains.  A strand is named after the single-crash point with the same last effect that leaves the same state.
+            if not ctx.quick:
+                for k1 in range(k):
+                    r1 = one_point(kind, sc, k1)
+                    if not r1["crashed"] or not r1["recovered"]:
+                        continue
+                    k2 = 0
+                    while k2 <= 40:
+                        r = one_point(kind, sc, k1, k2=k2)
+                        if not r.get("crashed2"):
+                            break
+                        double_points += 1
+                        ctx.count()
+                        ctx.distinct((kind, sc.name, "double", k1, k2, r["recovered"]))
+                        prot = drv.ask(f"crash.protected {r['pre_status2']} {max(r['queued2'], 0)}") == "1"
+                        if prot != r["recovered"]:
+                            nd += 1
+                            ctx.obligation(f"crash-table correspondence [{kind}] {sc.name} (second crash)", False,
+                                           f"first crash before effect {k1}, rescuer dies after {r['effects2'][-3:]} leaving {r['pre_status2']}/{r['queued2']}: model says "
+                                           f"{'recoverable' if prot else 'NOT recoverable'}, real run ended {r['final']} with {r['done']} completion(s)")
+                        if not r["recovered"]:
+                            last2 = r["effects2"][-1] if r["effects2"] else "start"
+                            sig = stranded_sig.get((last2, _cls(r["pre_status2"]), r["queued2"]), f"crash2:{sc.name}:after:{last2}:{r['pre_status2']}:{r['queued2']}")
+                            ctx.report(sig, f"[{kind}] {sc.name}: the acting process dies before its effect {k1}; the runner that comes to the rescue dies in turn after "
+                                            f"{r['effects2'][-2:] or 'nothing'}, leaving the invocation {r['pre_status2']} with {r['queued2']} queued copies; with a third runner it ends "
+                                            f"{r['final']} (body completed {r['done']}x): an accepted invocation is stranded",
+                                       {"backend": kind, "role": sc.name, "crash_before_effect": k1, "second_crash_before_effect": k2, "rescuer_effects": r["effects2"],
+                                        "status_at_second_crash": r["pre_status2"], "queued": r["queued2"], "final_status": r["final"]})
+                        k2 += 1
         worker_loop_consumption(ctx)
         ctx.obligation(f"crash-point table: Lean classification == outcome of the real crash replay on Mem and SQLite ({points} points)", nd == 0, f"{nd} disagreements")
     finally:
@@ -494,6 +562,7 @@ def run(ctx: Ctx) -> None:
         drv.close()
     ctx.notes["crash_points"] = points
     ctx.notes["commit_level_crash_points_sqlite"] = commit_points
+    ctx.notes["double_crash_points"] = double_points
     ctx.assumptions += [
         "a hard crash is modelled by parking the acting thread for ever between two backend effects (no finally block runs) and, on SQLite, right after every transaction the acting thread commits; a crash inside one SQL transaction (rolled back by SQLite) or inside one in-memory dict update is not explored",
         "liveness needs a live runner, the recovery services running, fair scheduling and terminating bodies (hypotheses of recoverable_leads_to_final)",
